@@ -17,7 +17,8 @@ import json
 import base58
 
 import lib
-from lib import chex, clist, cnat, cN, cZ
+from c31_lits import balanced, cbp
+from lib import clist, cnat, cN, cZ
 
 PROP = 'C31'
 IMPORTS = 'From PV Require Import Codec.Merkle.'
@@ -318,13 +319,13 @@ def oracle_tables(kind, lists, pred, rnd, calls):
 
 def coq_glue_case(kind, lists, pred, rnd, tables):
     bl, dc, en = tables
-    tb = lambda d: clist(f'({chex(k)}, {chex(v)})' for k, v in d.items())  # noqa: E731
-    ten = clist(f'({chex(p + b":" + x)}, {chex(v)})' for (p, x), v in en.items())
-    as_b = (lambda s: chex(bytes.fromhex(s))) if kind == 3 else (lambda s: chex(s.encode()))
+    tb = lambda d: clist(f'({cbp(k)}, {cbp(v)})' for k, v in d.items())  # noqa: E731
+    ten = clist(f'({cbp(p + b":" + x)}, {cbp(v)})' for (p, x), v in en.items())
+    as_b = (lambda s: cbp(bytes.fromhex(s))) if kind == 3 else (lambda s: cbp(s.encode()))
     ls = clist(clist(as_b(x) for x in l) for l in lists)
     r = rnd if -2 ** 70 < rnd < 2 ** 70 else 2 ** 70
     return (f'{{| g_blake := {tb(bl)}; g_dec := {tb(dc)}; g_enc := {ten}; g_kind := {cnat(kind)}; '
-            f'g_lists := {ls}; g_pred := {chex(pred.encode())}; g_round := {cZ(r)} |}}')
+            f'g_lists := {ls}; g_pred := {cbp(pred.encode())}; g_round := {cZ(r)} |}}')
 
 
 def gen_glue(rng, count):
@@ -451,51 +452,26 @@ def run(ctx: lib.Ctx) -> None:
     if ctx.thorough:
         lens = list(range(0, NMAX + 1)) + sorted(rng.sample(range(NMAX + 1, 1500), 12))
     else:
-        lens = sorted(set(list(range(0, 100)) + [2 ** k + d for k in range(7, 10) for d in (-2, -1, 0, 1, 2)] + [600, 599, 383, 384, 385]
-                          + rng.sample(range(100, NMAX), 6)))
+        lens = sorted(set(list(range(0, 66)) + [2 ** k + d for k in range(7, 10) for d in (-1, 0, 1, 2)] + [600, 599, 384, 385]
+                          + rng.sample(range(66, NMAX), 4)))
+    allcases = []  # (cost, (literal, stream, meta))
     for n in lens:
         if n not in free:
             free[n], _ = free_run(n)
             ctx.case(('free', n), kind='free-term')
-    cases = [(cnat(n), pos_chunks(free[n])) for n in lens]
-    bad = ctx.coq_mismatches('free', IMPORTS, 'free_reduce_pos', 'poslist_eqb', 'nat', 'list positive', cases, shard=ctx.n(24, 50))
+        allcases.append((3 * n + 20, (f'(CFree {cnat(n)} {pos_chunks(free[n])})', 'free', n)))
     ctx.extra['free_lengths_in_coq'] = len(lens)
-    if bad:
-        n = lens[bad[0]]
-        br = search_real(ctx, [n] + list(range(0, 70)))
-        if br:
-            n_, hs, g, w = br
-            report(f'Merkle root of {n_} hashes differs from the padded perfect tree',
-                   {'hashes': [x.hex() for x in hs], 'got': g, 'want': w,
-                    'repro': 'from pytezos.crypto.hash import _reduce_operation_hashes as r; r([bytes.fromhex(x) for x in hashes]).hex()'})
-        else:
-            report('implementation no longer corresponds to the model the theorems are about',
-                   {'correspondence': 'C31/_reduce_operation_hashes(free terms) vs Codec.Merkle.free_reduce', 'length': n,
-                    'disagreements': len(bad), 'lengths': [lens[i] for i in bad[:20]]}, found=False)
 
-    # ---- 3. numeric algebra, every length
-    ncases, nmeta = [], []
+    # ---- 3. numeric algebra (thorough: every length three times; quick: every length up to 160, then every third and the powers of two)
     for rep in range(ctx.n(1, 3)):
         for n in range(0, NMAX + 1):
+            if not ctx.thorough and n > 160 and n % 3 and not any(abs(n - 2 ** k) <= 2 for k in (8, 9)) and n < 598:
+                continue
             seed, e = rng.randrange(1, NUMP), rng.choice([0, 1, rng.randrange(NUMP)])
             v = num_run(n, seed, e)
             ctx.case(('num', n, seed, e), nontrivial=n >= 3, kind='numeric-algebra',
                      sample={'stream': 'num', 'length': n, 'seed': seed, 'e': e, 'value': v} if n == 7 else None)
-            ncases.append((f'({cnat(n)}, {cN(seed)}, {cN(e)})', cZ(v)))
-            nmeta.append((n, seed, e, v))
-    badn = ctx.coq_mismatches('num', IMPORTS, 'num_case', 'Z.eqb', 'nat * N * N', 'Z', ncases, shard=ctx.n(76, 120))
-    if badn:
-        n, seed, e, v = nmeta[badn[0]]
-        br = search_real(ctx, [n] + list(range(0, 70)))
-        if br:
-            n_, hs, g, w = br
-            report(f'Merkle root of {n_} hashes differs from the padded perfect tree',
-                   {'hashes': [x.hex() for x in hs], 'got': g, 'want': w,
-                    'repro': 'from pytezos.crypto.hash import _reduce_operation_hashes as r; r([bytes.fromhex(x) for x in hashes]).hex()'})
-        else:
-            report('implementation no longer corresponds to the model the theorems are about',
-                   {'correspondence': 'C31/_reduce_operation_hashes(numeric algebra) vs Codec.Merkle.num_case',
-                    'length': n, 'seed': seed, 'e': e, 'got': v, 'disagreements': len(badn)}, found=False)
+            allcases.append((n + 10, (f'(CNum {cnat(n)} {cN(seed)} {cN(e)} {cZ(v)})', 'num', (n, seed, e, v))))
 
     # ---- 4. real digests, every length (B)
     br = search_real(ctx, range(0, NMAX + 1))
@@ -513,31 +489,51 @@ def run(ctx: lib.Ctx) -> None:
         glue.append((doc['kind'], doc['lists'], doc['pred'], doc['round'], 'corpus'))
     for kind, lists, pred, rnd in vectors:
         glue.append((kind, lists, pred, rnd, 'vector'))
-    glue += gen_glue(rng, ctx.n(48, 600))
-    gcases, gmeta = [], []
+    glue += gen_glue(rng, ctx.n(40, 600))
     for kind, lists, pred, rnd, tag in glue:
         got, calls, err = glue_impl(kind, lists, pred, rnd)
         want = glue_spec(kind, lists, pred, rnd)
         flatn = sum(len(l) for l in lists)
         ctx.case(('glue', kind, json.dumps(lists), pred, rnd), nontrivial=flatn >= 3,
                  kind=f'glue{kind}:{"malformed" if tag in ("checksum", "foreign", "round", "pred") else "valid"}',
-                 sample={'stream': 'glue', 'function': kind, 'lists': [len(l) for l in lists], 'round': rnd, 'result': got} if len(gcases) in (3, 9) else None)
+                 sample={'stream': 'glue', 'function': kind, 'lists': [len(l) for l in lists], 'round': rnd, 'result': got} if flatn == 5 else None)
         fname = ['operation_list_hash', 'operation_list_list_hash', 'block_payload_hash', '_reduce_operation_hashes'][kind]
         if want is not None and got != want:
             report(f'{fname} differs from the Tezos Merkle construction',
                    {'function': fname, 'lists': lists, 'predecessor': pred, 'round': rnd, 'got': got, 'want': want, 'error': err,
                     'repro': f'import pytezos.crypto.hash as H; H.{fname}(...) with the arguments of this file'})
         tables = oracle_tables(kind, lists, pred, rnd, calls)
-        out = 'Reject' if got is None else f'(Ok {chex(bytes.fromhex(got) if kind == 3 else str(got).encode())})'
-        gcases.append((coq_glue_case(kind, lists, pred, rnd, tables), out))
-        gmeta.append((kind, lists, pred, rnd, got, want, err))
-    badg = ctx.coq_mismatches('glue', IMPORTS, 'run_glue', 'rbytes_eqb', 'glue_case', 'result bytes', gcases, shard=ctx.n(9, 40))
-    if badg and reported == 0:
-        kind, lists, pred, rnd, got, want, err = gmeta[badg[0]]
-        report('implementation no longer corresponds to the model the theorems are about',
-               {'correspondence': 'C31/operation_list_hash, operation_list_list_hash, block_payload_hash vs Codec.Merkle.run_glue',
-                'function': kind, 'lists': lists, 'predecessor': pred, 'round': rnd, 'got': got, 'oracle': want, 'error': err,
-                'disagreements': len(badg)}, found=False)
+        out = 'Reject' if got is None else f'(Ok {cbp(bytes.fromhex(got) if kind == 3 else str(got).encode())})'
+        allcases.append((12 * sum(len(t) for t in tables) + 30,
+                         (f'(CGlue {coq_glue_case(kind, lists, pred, rnd, tables)} {out})', 'glue', (kind, lists, pred, rnd, got, want, err))))
+
+    # ---- 6. (A): the model evaluates every collected case inside coqc
+    shard = ctx.n(28, 60)
+    ordered = balanced(allcases, shard)
+    bad = ctx.coq_mismatches('cases', IMPORTS, 'ccheck', 'Bool.eqb', 'ccase', 'bool', [(lit, 'true') for lit, _, _ in ordered], shard=shard)
+    ctx.extra['coq_cases'] = {k: sum(1 for _, s_, _ in ordered if s_ == k) for k in ('free', 'num', 'glue')}
+    if bad and reported == 0:
+        streams = sorted({ordered[i][1] for i in bad})
+        lit, stream, meta = ordered[bad[0]]
+        n = meta if stream == 'free' else meta[0] if stream == 'num' else None
+        br = search_real(ctx, ([n] if n is not None else []) + list(range(0, 70)))
+        if br:
+            n_, hs, g, w = br
+            report(f'Merkle root of {n_} hashes differs from the padded perfect tree',
+                   {'hashes': [x.hex() for x in hs], 'got': g, 'want': w,
+                    'repro': 'from pytezos.crypto.hash import _reduce_operation_hashes as r; r([bytes.fromhex(x) for x in hashes]).hex()'})
+        else:
+            rep = {'correspondence': {'free': 'C31/_reduce_operation_hashes(free terms) vs Codec.Merkle.free_reduce',
+                                      'num': 'C31/_reduce_operation_hashes(numeric algebra) vs Codec.Merkle.num_case',
+                                      'glue': 'C31/operation_list_hash, operation_list_list_hash, block_payload_hash vs Codec.Merkle.run_glue'}[stream],
+                   'streams_disagreeing': streams, 'disagreements': len(bad)}
+            if stream == 'free':
+                rep['length'] = meta
+            elif stream == 'num':
+                rep.update({'length': meta[0], 'seed': meta[1], 'e': meta[2], 'got': meta[3]})
+            else:
+                rep.update({'function': meta[0], 'lists': meta[1], 'predecessor': meta[2], 'round': meta[3], 'got': meta[4], 'oracle': meta[5], 'error': meta[6]})
+            report('implementation no longer corresponds to the model the theorems are about', rep, found=False)
 
 
 def ctx_corpus(ctx):
